@@ -1026,6 +1026,17 @@ package yang
 // own parent. (Partial contract: which values are written is exercised by the
 // bounded comparison with RFC 7950 7.20.3; Find and the sort are outside.)
 //@ pred listy(x *Entry) = x.ListAttr != nil && (x.Dir != nil || x.Kind == LeafEntry)   -- a list or a leaf-list: IsList() || IsLeafList()
+// writtenBefore (the order in which the deviate statements of a deviation take
+// effect): statements with positions are ordered by line and, on one line, by
+// column -- two deviate statements on one line are still in written order --;
+// without positions, or for the same position, the answer is the default.
+//@ spec posKnown(a Node, b Node) bool = a != nil && b != nil && nodeStmt(a) != nil && nodeStmt(b) != nil && nodeStmt(a).line != 0 && nodeStmt(b).line != 0
+//@ func writtenBefore props C08
+//@   ensures[by-line-then-by-column] posKnown(a, b) && !(nodeStmt(a).line == nodeStmt(b).line && nodeStmt(a).col == nodeStmt(b).col)
+//@            ==> result == (nodeStmt(a).line < nodeStmt(b).line || (nodeStmt(a).line == nodeStmt(b).line && nodeStmt(a).col < nodeStmt(b).col))
+//@   ensures[otherwise-the-default] !posKnown(a, b) || (nodeStmt(a).line == nodeStmt(b).line && nodeStmt(a).col == nodeStmt(b).col) ==> result == byDefault
+//@   modifies nothing
+//@   safe
 //@ func (*Entry).ApplyDeviate$appendErr props C08
 //@   ensures  len(errs) == old(len(errs)) + 1 && (arr(errs) == old(arr(errs)) || fresh(errs))
 //@   modifies cell(errs), elems(errs)
